@@ -27,7 +27,7 @@ RULE = ("one run = one staged schedule: (pilot) a periodic pattern of (CVR, manu
         "is strictly between 1 and N; distinct = distinct event-log digest")
 ASSUMPTIONS = [
     "one- and two-vote overstatements are placed at positions 0, s, 2s, ... with s = int(1/rate), the library's reading of 'at the assumed rates'",
-    "the interleaved order of the tallies is the library's own (the documentation fixes only the counts and the first value); its counts are checked separately (C16.f)",
+    "the interleaved order of the tallies is the library's own (the documentation fixes only the counts and the first value); its counts are checked separately (C16.f), and 'interleaved' is read as: at every prefix each value's count is within 5 of its proportional share (the shipped routine stays within 2)",
     "card-level staging uses assorters with upper bound 1 (plurality / approval); super-majority is staged with zero error rates",
     "interleave_values is called with at least one 'big' value (a reported winner has at least one vote)",
 ]
@@ -244,6 +244,18 @@ def execute(case):
             out.violate("C16.f", "counts", f"interleave_values({ns_},{nm},{nb}) returned counts {got}, length {len(x)}")
         if ns_ > 0 and x and x[0] != s:
             out.violate("C16.f", "start", "the interleaving does not start with a small value")
+        # "interleaved": each value is spread through the sequence, not bunched - at every prefix the number of each value
+        # placed so far stays within a few positions of its proportional share (the shipped routine stays within 2)
+        if got == (ns_, nm, nb) and len(x) == ns_ + nm + nb:
+            N_ = len(x)
+            for val, n_v in ((s, ns_), (m, nm), (b, nb)):
+                placed = 0
+                for i, v in enumerate(x, start=1):
+                    placed += (v == val)
+                    if abs(placed - i * n_v / N_) > 5:
+                        out.violate("C16.f", "bunched", f"interleave_values({ns_},{nm},{nb}): after {i} positions {placed} values equal to "
+                                                        f"{val} have been placed, their share would be {i * n_v / N_:.1f}")
+                        break
         out.nontrivial = ns_ > 0 and nm > 0
         return out
 
